@@ -61,9 +61,7 @@ class MannWhitneyUTest(BaseStatisticalTest):
         test = mannwhitneyu(  # pylint: disable=unexpected-keyword-arg
             x=X_ref,
             y=X,
-            alternative=kwargs.get("alternative", "two-sided"),
-            nan_policy=kwargs.get("nan_policy", "raise"),
-            **kwargs,
+            **{"alternative": "two-sided", "nan_policy": "raise", **kwargs},
         )
         test = StatisticalResult(
             statistic=test.statistic,
